@@ -509,6 +509,13 @@ func GenHaystack(r *RNG, re *syntax.Regexp, asciiOnly bool) []byte {
 			if r.Chance(30) {
 				h = append(h, first[k:]...)
 			}
+			if asciiOnly {
+				for i, b := range h {
+					if b >= 0x80 {
+						h[i] = 'a' + b%26
+					}
+				}
+			}
 			return h
 		}
 		b = 40
